@@ -226,7 +226,7 @@ def run(ctx):
             canary(ctx, t1)
     ctx.cov['tlc_exported_configurations'] = len(cfgs)
     ctx.assumptions += [
-        'byte order of names = rank computed by the harness (sort.Strings); names valid per ociref',
+        'byte order of names = rank computed by the harness (sort.Strings); names valid per ociref, except in a quarter of the random tag cases, whose tag names carry URL / query / Link metacharacters and are listed by an overlay on the in-memory registry (ocimem refuses them)',
         'referrers: ociclient.Referrers sends one request and does not page (modelled as the code does it); artifactType filtering not exercised',
         'ociunify: sequential read policy; no unifier below a unifier, and for referrers at most one member with HTTP hops (request order of concurrent members is not determined)',
         'Select/Sub for tags and referrers admit/rename the listed repository only (C12/C13 cover the rest)',
